@@ -8,6 +8,7 @@ From BCL Require Import Model.Reflect.
 From BCL Require Model.Cli.
 From BCL Require Import Model.Verify.
 From BCL Require Import Model.Compile.
+From BCL Require Spec.AstSem.
 Open Scope N_scope.
 
 Definition sp : N := 32.
@@ -364,6 +365,51 @@ Definition suite_t2check (c : bytes) : bytes :=
          then bs "agree accept" else bs "DISAGREE code"
   end.
 
+(* t1check: does executing the generated code agree with the big-step semantics over names?
+   (an executable test of the statement of theorem T1, run on every generated program) *)
+Definition show_rerr (e : AstSem.rerr) : bytes :=
+  match e with
+  | AstSem.XTypes op a b => op ++ bs ": invalid types: " ++ vtype a ++ bs ", " ++ vtype b
+  | AstSem.XType1 op a => op ++ bs ": invalid type: " ++ vtype a ++ bs ", expected number"
+  | AstSem.XDivZero => bs "division by int zero"
+  | AstSem.XNegRepeat => bs "MUL: negative repeat count"
+  | AstSem.XExcluded => bs "EXCLUDED"
+  | AstSem.XUnresolved x => bs "identifier '" ++ x ++ bs "' not resolved as var or field"
+  | AstSem.XDupChild k => bs "child " ++ k ++ bs " duplicate at parent"
+  | AstSem.XBindNone t => bs "bind: no blocks of type " ++ t
+  | AstSem.XBindCount n t => bs "bind: found " ++ dec_of_N n ++ bs " blocks of type " ++ t ++ bs " but expected just 1"
+  | AstSem.XStatic => bs "STATIC"
+  end.
+Definition show_selres (r : option Sem.sel_res) : bytes :=
+  match r with
+  | Some (Sem.SStruct b) => bs "struct " ++ show_block b
+  | Some (Sem.SSlice l) => bs "slice " ++ show_blocks l
+  | _ => bs "none"
+  end.
+Definition suite_t1check (c : bytes) : bytes :=
+  let '(ts, l) := lex [c] in
+  match ast_program ts with
+  | None => bs "skip not-a-sentence"
+  | Some p =>
+    let cs := compile_program p in
+    if hadError cs then bs "skip static-error" else
+    let g := {| g_name := []; g_code := frev (code cs); g_consts := frev (consts cs);
+                g_pos := repeat 0 (length (code cs)); g_lfs := [] |} in
+    let rr := execute g false false in
+    let '(sr, en) := AstSem.run_program p in
+    let vm_err := match rr_res rr with
+                  | VOk => bs "ok" | VErr _ m => m | VInternal m => m | VPanic k => bs "panic:" ++ panic_name k end in
+    let overflow := bytes_eqb vm_err (bs "stack overflow") || bytes_eqb vm_err (bs "too many nested blocks") in
+    let sem_err := match sr with AstSem.ROk _ => bs "ok" | AstSem.RErr (AstSem.XExcluded) => bs "panic:EXCLUDED" | AstSem.RErr e => show_rerr e end in
+    if overflow then bs "skip limit"
+    else if negb (bytes_eqb vm_err sem_err) then bs "DISAGREE result vm=" ++ vm_err ++ bs " sem=" ++ sem_err
+    else if negb (bytes_eqb (print_bytes (rr_out rr)) (concat (frev (AstSem.output en)))) then bs "DISAGREE output"
+    else if negb (bytes_eqb (show_blocks (rr_blocks rr)) (show_blocks (frev (AstSem.results en)))) then bs "DISAGREE blocks"
+    else if negb (bytes_eqb (show_binding (rr_binding rr)) (show_selres (AstSem.binding_ en))) then bs "DISAGREE binding"
+    else if negb (nlen (rr_warn rr) =? AstSem.warnings en) then bs "DISAGREE warnings"
+    else bs "agree"
+  end.
+
 Definition run_suite (name : bytes) (c : bytes) : bytes :=
   if bytes_eqb name (bs "dump") then suite_dump c
   else if bytes_eqb name (bs "load") then suite_load c
@@ -382,4 +428,5 @@ Definition run_suite (name : bytes) (c : bytes) : bytes :=
   else if bytes_eqb name (bs "verify") then suite_verify c
   else if bytes_eqb name (bs "verifysrc") then suite_verifysrc c
   else if bytes_eqb name (bs "t2check") then suite_t2check c
+  else if bytes_eqb name (bs "t1check") then suite_t1check c
   else bs "unknown-suite".
